@@ -25,6 +25,8 @@ How the tokens map to LTS actions (Model/C17.lean):
   pipe select cases                               PAct.observeCancel / recv / close / send, flush loop + exit
 -/
 import Dawgs.Generated.C17_order
+import Dawgs.Generated.C13_locks
+import Dawgs.Props.C13Conc
 set_option maxRecDepth 20000
 namespace Dawgs.C17.Tie
 open Dawgs.Generated.C17
@@ -345,5 +347,51 @@ theorem order_defers_and_capacity : defersAndCapacity breadthFirst = true := by 
 theorem order_coordinator : coordinatorOrder breadthFirst = true := by decide
 theorem order_error_path : errorPath breadthFirst = true := by decide
 theorem order_pipe : pipeFacts bufferedPipe = true := by decide
+
+/-! ### glue facts: what the models assume about the code AROUND the protocol -/
+
+/-- every visited / seen set that ops/ and traversal/ create is a 64-bit set (database ids are uint64): the
+only cardinality constructors used are NewBitmap64 and the ThreadSafeDuplex wrapper around one -/
+def sets64 (names : List String) : Bool := names.all (fun c => c == "NewBitmap64" || c == "ThreadSafeDuplex")
+
+theorem order_visited_sets_64bit : sets64 opsSetCtorNames = true ∧ sets64 traversalSetCtorNames = true := by decide
+
+/-- … and no id is narrowed with `.Uint32()` anywhere in the two packages -/
+theorem order_no_id_narrowing : opsIdNarrowings = [] ∧ traversalIdNarrowings = [] := by decide
+
+/-- the visited sets exist where the models have one: the two acyclic helpers and UniquePathSegmentFilter -/
+theorem order_visited_set_sites :
+    opsSetCtors = ["traversal.go:AcyclicTraverseNodes:NewBitmap64", "traversal.go:AcyclicTraverseTerminals:NewBitmap64"] ∧
+    traversalSetCtors = ["traversal.go:UniquePathSegmentFilter:ThreadSafeDuplex", "traversal.go:UniquePathSegmentFilter:NewBitmap64",
+      "traversal.go:LightweightDriver:NewBitmap64"] := by decide
+
+/-- exported filters / visitors / drivers of package traversal that the C17 suites drive with the real code -/
+def exercised : List String :=
+  ["AcyclicNodeFilter", "FilteredSkipLimit", "New", "NewNodeCollector", "NewPathCollector", "NewPattern", "NodeCollector.Add",
+   "NodeCollector.Collect", "PathCollector.Add", "Traversal.BreadthFirst", "UniquePathSegmentFilter"]
+
+/-- … and those that are exempt, with the reason -/
+def exempt : List (String × String) :=
+  [("LightweightDriver", "needs a graph cache and the shallow-fetch result scanner of a real driver; the way it uses the filters (`if filter(nextSegment)`) and terminal visitors is what the c17flt driver reproduces"),
+   ("NodeCollector.PopulateProperties", "database property fetch, no traversal logic"),
+   ("PathCollector.PopulateNodeProperties", "database property fetch, no traversal logic")]
+
+/-- every exported function / method of package traversal is exercised by a suite or exempt by name: a new
+filter or wrapper breaks this obligation until it is classified -/
+theorem traversal_exports_classified :
+    traversalExported.all (fun n => exercised.contains n || (exempt.map (·.1)).contains n) = true := by decide
+
+/-- The models of UniquePathSegmentFilter and of the collectors take the test-and-set of the visited set as ONE
+atomic action. That is property C13's theorem `checkedAdd_atomic`, which rests on the lock skeleton of
+cardinality/lock.go (Generated/C13_locks.lean, regenerated by this check too): `threadSafeDuplex.CheckedAdd`
+takes the lock first, releases it by defer, and makes exactly one delegate call, `CheckedAdd`, under it. -/
+def checkedAddSkeletonOk (ms : List Dawgs.C13.Facts.WrapperMethod) : Bool :=
+  (ms.filter (fun m => m.recv == "threadSafeDuplex" && m.name == "CheckedAdd")).map
+    (fun m => (m.lockFirst, m.deferRelease, m.delegates, m.otherLockUses)) == [("Lock", "Unlock", ["CheckedAdd"], 0)]
+
+theorem visited_filter_testandset_atomic : checkedAddSkeletonOk Dawgs.Generated.C13.wrapperMethods = true := by decide
+
+/-- the cited theorem (audited with the C17 obligations) -/
+theorem uses_c13_checkedAdd_atomic : type_of% @Dawgs.C13.ConcProps.checkedAdd_atomic := @Dawgs.C13.ConcProps.checkedAdd_atomic
 
 end Dawgs.C17.Tie
